@@ -84,6 +84,11 @@ def build_array(col, n):
     if kind == "int":
         return np.array(vals, dtype=col["sub"])
     if kind == "float":
+        if col.get("ext"):
+            return pd.array(np.array([0.0 if v is MISSING else v for v in vals], dtype="float64"), dtype=col["ext"]) \
+                if not any(v is MISSING for v in vals) else \
+                pd.arrays.FloatingArray(np.array([0.0 if v is MISSING else v for v in vals], dtype="float64"),
+                                        np.array([v is MISSING for v in vals], dtype=bool))
         return np.array([np.nan if v is MISSING else v for v in vals], dtype=col["sub"])
     if kind == "text":
         if col.get("sub") == "str":
